@@ -1,7 +1,259 @@
-//! C20 — TODO
-use mc_core::Ctx;
+//! C20 — a signer signs each beacon once with its epoch key, acceptably to aggregators.
+//!
+//! Explicit-state exploration by replay of the real signer node (`StateMachine::cycle`,
+//! `SignerRunner`, epoch service, single signer, certifier, SQLite repositories in files) against an
+//! in-process reference aggregator that applies the epoch-offset rule with its own constants and
+//! verifies every published signature (see `refagg.rs`, `world.rs`, `sys.rs`).
 
-pub fn run(_ctx: &Ctx) -> ! {
-    eprintln!("C20: not implemented");
-    std::process::exit(2)
+use std::collections::BTreeMap;
+use std::sync::Mutex;
+
+use mc_core::explore::{Explorer, standard_edits};
+use mc_core::{Ctx, Report, Tier};
+use serde_json::json;
+
+use crate::sys::{Ev, nominal, replay};
+
+pub fn alphabet() -> Vec<Ev> {
+    use Ev::*;
+    vec![
+        Tick,
+        Epoch,
+        Immutable,
+        Blocks,
+        AggDown,
+        AggUp,
+        StaleOn,
+        StaleOff,
+        RoundClosed,
+        RoundOpen,
+        Others(0b010),
+        Others(0b110),
+        PublishFails,
+        RegisterAckLost,
+        Restart,
+    ]
+}
+
+/// prepared states for the depth-bounded search
+pub fn prefixes() -> Vec<Vec<Ev>> {
+    use Ev::*;
+    // (1) a fresh node in epoch 1
+    let p1 = vec![];
+    // (2) epoch 2, registered for the second time, not yet able to sign
+    let p2 = vec![Tick, Tick, Others(0b110), Epoch, Tick, Tick, Others(0b010)];
+    // (3) epoch 3, ready to sign, the first beacon of the epoch signed, three pending
+    let mut p3 = vec![Tick, Tick, Others(0b110), Epoch, Tick, Tick, Others(0b110), Epoch, Tick, Tick, Tick];
+    // (4) epoch 4 reached, not yet noticed by the signer, which signed everything in epoch 3
+    let mut p4 = p3.clone();
+    p4.extend([Tick, Tick, Tick, Epoch]);
+    p3.shrink_to_fit();
+    vec![p1, p2, p3, p4]
+}
+
+pub fn run(ctx: &Ctx) -> ! {
+    let scratch = ctx.scratch();
+    // the repository's fixtures keep the pools' KES keys and operational certificates in files under
+    // the system temp dir: keep them inside the scratch directory of this run
+    // SAFETY: no other thread exists yet
+    unsafe { std::env::set_var("TMPDIR", &scratch) };
+    let fixture = crate::world::fixture();
+    let mut rep = Report::new(
+        "model_checking",
+        "explicit-state exploration by replay of the real signer node (state machine, runner, epoch service, single signer, certifier, \
+         SQLite stores) against an in-process reference aggregator: every history is replayed on a fresh node, every publication is \
+         judged by the reference when it happens, the publication log is checked at the end and a fault-free tail of three epochs must \
+         make the signer sign again; a history is non-trivial when the signer published at least one signature; distinct = distinct \
+         canonical states reached by such histories",
+    );
+    let stats: Mutex<BTreeMap<&'static str, u64>> = Mutex::new(BTreeMap::new());
+    let run = |h: &[Ev]| {
+        let o = replay(&scratch, &fixture, h, true);
+        let mut s = stats.lock().unwrap();
+        for (k, v) in o.stats {
+            *s.entry(k).or_insert(0) += v;
+        }
+        o.result
+    };
+
+    if let Some(path) = &ctx.replay {
+        let v = mc_core::load_replay(path);
+        let h: Vec<Ev> = serde_json::from_value(v["history"].clone()).expect("history in replay file");
+        let r = run(&h);
+        eprintln!("replayed {} events: outcome {}", h.len(), r.outcome);
+        for v in &r.violations {
+            eprintln!("  {}: {}", v.key, v.what);
+            if let Some(log) = v.replay["log"].as_array() {
+                for l in log {
+                    eprintln!("      {}", l.as_str().unwrap_or(""));
+                }
+            }
+            break;
+        }
+        rep.eval();
+        for v in r.violations {
+            rep.push_violation(v);
+        }
+        rep.nontrivial(&0);
+        rep.nontrivial(&1);
+        rep.states = Some(1);
+        rep.transitions = Some(1);
+        rep.traces_validated = Some(1);
+        rep.sample(json!({"history": h}));
+        rep.finish(ctx);
+    }
+
+    if std::env::var("MC_NOMINAL_ONLY").is_ok() {
+        for slack in [0usize, 2] {
+            let nom = nominal(slack);
+            let t = std::time::Instant::now();
+            let o = replay(&scratch, &fixture, &nom, true);
+            eprintln!(
+                "nominal(slack {slack}): {} events, outcome {}, {} violations, {:.3}s",
+                nom.len(),
+                o.result.outcome,
+                o.result.violations.len(),
+                t.elapsed().as_secs_f64()
+            );
+            for v in &o.result.violations {
+                eprintln!("  {}: {}", v.key, v.what);
+            }
+            eprintln!("published: {:?}", o.published);
+            eprintln!("stats: {:?}", o.stats);
+            if slack == 0 {
+                eprintln!("{}", o.result.canon);
+                let o2 = replay(&scratch, &fixture, &nom, false);
+                if let Some(v) = o2.result.violations.first() {
+                    eprintln!("{:#}", v.replay["log"]);
+                }
+                let t = std::time::Instant::now();
+                let o3 = replay(&scratch, &fixture, &[], true);
+                eprintln!("empty history with tail: {:.3}s {}", t.elapsed().as_secs_f64(), o3.result.outcome);
+                if std::env::var("MC_LOG").is_ok() {
+                    let mut w = o3.result.violations;
+                    w.extend(o.result.violations.clone());
+                    for v in w.iter().take(1) {
+                        eprintln!("{:#}", v.replay["log"]);
+                    }
+                }
+            }
+        }
+        let _ = std::fs::remove_dir_all(&scratch);
+        std::process::exit(0);
+    }
+
+    let quick = ctx.tier == Tier::Quick;
+    let ex = Explorer { threads: ctx.threads(), budget: None, run: &run };
+
+    // (a) all histories up to a depth over the full alphabet, from the prepared states
+    let alpha = alphabet();
+    let pre = prefixes();
+    let depth = ctx.tier.pick(3, 4);
+    let st = ex.bfs(&pre, &alpha, depth, &mut rep);
+    rep.extra(
+        "bfs",
+        json!({"prepared_states": pre.len(), "alphabet": alpha.len(), "depth_completed": st.depth_completed, "histories": st.transitions, "states": st.states}),
+    );
+
+    // (b) deviation ball around the nominal five-epoch schedule
+    let nom = nominal(0);
+    let edits = |h: &[Ev]| standard_edits(h, &alpha, 0);
+    let st = ex.ball(&nom, &edits, 1, &mut rep);
+    rep.extra(
+        "ball_nominal",
+        json!({"nominal_len": nom.len(), "deviation_alphabet": alpha.len(), "bound_completed": st.depth_completed, "histories": st.transitions, "states": st.states}),
+    );
+    if !quick {
+        // two deviations, from the first signing epoch on, with the fault events only
+        use Ev::*;
+        let dev2 = vec![Epoch, AggDown, StaleOn, RoundClosed, PublishFails, RegisterAckLost, Restart];
+        let from = nom.iter().enumerate().filter(|(_, e)| **e == Epoch).nth(1).map(|x| x.0).unwrap();
+        let edits2 = |h: &[Ev]| {
+            let mut v = vec![];
+            // insertions only (drops / swaps of the nominal are in the one-deviation ball)
+            for i in from..=h.len() {
+                for e in &dev2 {
+                    let mut d = h.to_vec();
+                    d.insert(i, *e);
+                    v.push(d);
+                }
+            }
+            v
+        };
+        let st = ex.ball(&nom, &edits2, 2, &mut rep);
+        rep.extra(
+            "ball_nominal_two_faults",
+            json!({"nominal_len": nom.len(), "from_event": from, "deviation_alphabet": dev2.len(), "bound_completed": st.depth_completed, "histories": st.transitions, "states": st.states}),
+        );
+    }
+
+    // (c) restart differential: a restart costs the signer at most two cycles (Init -> Unregistered ->
+    // registered), so on the nominal schedule with two (four) spare cycles after every group of
+    // cycles, one (two) restarts inserted anywhere must leave the set of acknowledged publications
+    // exactly as in the uninterrupted run
+    let n_restarts = ctx.tier.pick(1usize, 2);
+    let slack_nom = nominal(2 * n_restarts);
+    let base = replay(&scratch, &fixture, &slack_nom, false);
+    for v in &base.result.violations {
+        rep.push_violation(v.clone());
+    }
+    let mut jobs: Vec<Vec<usize>> = (0..=slack_nom.len()).map(|p| vec![p]).collect();
+    if n_restarts == 2 {
+        for p in 0..=slack_nom.len() {
+            for q in p..=slack_nom.len() {
+                jobs.push(vec![p, q]);
+            }
+        }
+    }
+    let res = mc_core::par_map(&jobs, ctx.threads(), |_, pos| {
+        let mut h = slack_nom.clone();
+        for p in pos.iter().rev() {
+            h.insert(*p, Ev::Restart);
+        }
+        let o = replay(&scratch, &fixture, &h, false);
+        (h, o)
+    });
+    let mut diff_states = std::collections::HashSet::new();
+    let mut n_diff = 0u64;
+    for (pos, (h, o)) in jobs.iter().zip(res) {
+        n_diff += 1;
+        rep.eval();
+        rep.outcome(&format!("restart-differential:{}", if o.published == base.published { "same-published-set" } else { "DIFFERENT" }));
+        rep.nontrivial(&o.result.canon);
+        diff_states.insert(o.result.canon.clone());
+        for v in o.result.violations {
+            rep.push_violation(v);
+        }
+        if o.published != base.published {
+            let missing: Vec<&String> = base.published.difference(&o.published).collect();
+            let extra: Vec<&String> = o.published.difference(&base.published).collect();
+            rep.violation(
+                "C20/restart-changes-published-set",
+                format!(
+                    "restart(s) inserted at position(s) {pos:?} of the nominal schedule with {} spare cycles per group: acknowledged publications differ from the uninterrupted run; missing {missing:?}, additional {extra:?}",
+                    2 * n_restarts
+                ),
+                json!({"history": h, "differential_against": slack_nom, "missing": missing, "additional": extra}),
+            );
+        }
+    }
+    rep.states = Some(rep.states.unwrap_or(0) + diff_states.len() as u64);
+    rep.transitions = Some(rep.transitions.unwrap_or(0) + n_diff);
+    rep.traces_validated = Some(rep.traces_validated.unwrap_or(0) + n_diff);
+    rep.extra(
+        "restart_differential",
+        json!({"nominal_len": slack_nom.len(), "spare_cycles_per_group": 2 * n_restarts, "restarts_per_run": n_restarts, "runs": n_diff,
+               "publications_in_uninterrupted_run": base.published.len()}),
+    );
+
+    for (k, v) in stats.lock().unwrap().iter() {
+        rep.extra(k, json!(v));
+    }
+    rep.extra("reference_offsets", json!({"recorded_for": "e+1", "signs_in": "e+2"}));
+    rep.assume("the Cardano node (chain observer, immutable file observer, block scanner, immutable digester) is replaced by the repository's own test doubles; the aggregator by the harness reference aggregator called in process (no HTTP, no message adapters)");
+    rep.assume("reference rule: keys registered during epoch e, the stake distribution the chain showed during e and the parameters handed out during e are in force in e+2; a repeated registration in the same epoch replaces the earlier one");
+    rep.assume("events are atomic with respect to a state-machine cycle: no fault or chain event happens in the middle of a cycle");
+    rep.assume("the node draws its keys from the OS random generator: signatures differ between runs, canonical states record only which keys exist and whether signer and aggregator agree on them; with m>=100 and phi_f>=0.65 a registered signer wins at least one lottery except with negligible probability");
+    rep.assume("only acknowledged publications count for 'at most once'; a further publication after an unacknowledged one is legitimate");
+    rep.finish(ctx)
 }
